@@ -66,7 +66,7 @@ def mkIndex (start : Nat) : Nat → List (Nat × Nat)
   | n + 1 => mkIndex start n ++ [(start + n, n + 1)]
 
 inductive PrepErr where
-  | unknownBlock | badRange
+  | unknownBlock | notCommitted | badRange
 deriving DecidableEq, Repr
 
 structure Chain where
@@ -78,6 +78,8 @@ def Chain.best (c : Chain) : Nat := min c.tip (c.fhs.length - 1)
 
 def prepare (c : Chain) (target : Nat) (bt : Batch) (maxBatch : Int) : Except PrepErr Query :=
   if target > c.tip then .error .unknownBlock
+  -- `if int64(height) > bestHeight`: the target's filter header is not committed yet
+  else if target > c.best then .error .notCommitted
   else
     let r := rangeOf target c.best bt maxBatch
     let n := r.2 - r.1 + 1
